@@ -56,8 +56,8 @@ def handle (line : String) : String :=
       let wellFormed : Bool := kind == "exact" && I.exactBytes ≤ data.length && data.length ≤ I.exactBytes + 1
       let unaligned : Bool := bits == 1 && I.frameSamples % 8 ≠ 0
       let sub : String :=
-        if bits == 1 && spp ≠ 1 then "onebit-multisample"
-        else if unaligned then "onebit-nonmultiple8"
+        if unaligned then "onebit-nonmultiple8"
+        else if bits == 1 then "onebit"
         else if data.length ≠ I.exactBytes then "padded-odd-length"
         else "native"
       -- 1. the property's oracle on the implementation's outputs (well-formed images only)
